@@ -152,8 +152,28 @@ fn pick_crop(rng: &mut Rng, sw: u32, sh: u32, dw: u32, dh: u32, edge: u64, inval
     if c < 45 {
         let l = rng.below(sw as u64) as u32;
         let t = rng.below(sh as u64) as u32;
-        let w = rng.range(1, (sw - l) as u64) as u32;
-        let h = rng.range(1, (sh - t) as u64) as u32;
+        // often exactly the destination size (same-size copy path / one pass only)
+        let w = if dw >= 1 && dw <= sw - l && rng.chance(1, 3) { dw } else { rng.range(1, (sw - l) as u64) as u32 };
+        let h = if dh >= 1 && dh <= sh - t && rng.chance(1, 3) { dh } else { rng.range(1, (sh - t) as u64) as u32 };
+        if rng.chance(1, 3) {
+            // "almost integer": every value an ulp or two away from a whole number (the
+            // box must stay inside the image: origin never below 0, far edge never beyond)
+            let nudge = |rng: &mut Rng, v: f64, up_ok: bool| -> f64 {
+                match rng.below(3) {
+                    0 => v,
+                    1 if v > 0.0 => f64::from_bits(v.to_bits() - rng.range(1, 2)),
+                    _ if up_ok => f64::from_bits(v.to_bits() + rng.range(1, 2)),
+                    _ => v,
+                }
+            };
+            let lf = nudge(rng, l as f64, l > 0);
+            let tf = nudge(rng, t as f64, t > 0);
+            let wf = nudge(rng, w as f64, (l + w) < sw);
+            let hf = nudge(rng, h as f64, (t + h) < sh);
+            if lf >= 0.0 && tf >= 0.0 && lf + wf <= sw as f64 && tf + hf <= sh as f64 && wf > 0.0 && hf > 0.0 {
+                return (Crop::Box([f(lf), f(tf), f(wf), f(hf)]), "almost-integer");
+            }
+        }
         return (Crop::Box([f(l as f64), f(t as f64), f(w as f64), f(h as f64)]), "integer");
     }
     if c < 75 {
@@ -344,6 +364,7 @@ fn mk_img(rng: &mut Rng, w: u32, h: u32, kind: Kind, pt: Pt, is_dst: bool, yield
         stride_extra: if kind.is_sim() && rng.chance(2, 3) { rng.range(1, 5) as u32 } else { 0 },
         yield_rows: kind.is_harness() && yield_rows,
         panic_at: 0,
+        misalign: if matches!(kind, Kind::Buffer | Kind::DynSlice | Kind::DynImgAsSrc) && rng.chance(1, 20) { rng.range(1, 3) as u8 } else { 0 },
     }
 }
 
@@ -1127,6 +1148,18 @@ pub fn generate(k: &Knobs, seed: u64) -> Scenario {
                 let dynamic = imgs.last().map(|i| i.kind.is_dyn()).unwrap_or(false);
                 for i in imgs {
                     i.kind = if dynamic { Kind::DynSlice } else { Kind::Slice };
+                    // an empty image over a byte slice that starts at an odd address
+                    if dynamic && rng.chance(1, 3) {
+                        i.misalign = rng.range(1, 3) as u8;
+                    }
+                    if k.prop == "C13" {
+                        i.misalign = 0;
+                    }
+                }
+            } else if k.prop == "C13" {
+                // every recipe of a C13 run must accept its buffer
+                for i in imgs {
+                    i.misalign = 0;
                 }
             }
         }
